@@ -1,6 +1,7 @@
 package main
 
 import (
+	"regexp"
 	"go/constant"
 	"go/token"
 	"go/types"
@@ -174,6 +175,8 @@ func runC14(w *World, r *Report) {
 	c14Coverage(w, r)
 	c14CatchAllSpellings(w, r)
 	c14UnmanageSet(w, r)
+	c14DelayedUnmanage(w, r)
+	c14NormalisationAgreement(w, r)
 	r.Min("R5", 3)
 	r.Min("R1", 2)
 	r.Min("R2", 3)
@@ -675,4 +678,221 @@ func c14UnmanageSet(w *World, r *Report) {
 	if nId == 0 {
 		r.Hold("R5", "unmanage-set/no-identity-comparison", token.NoPos, 1, "no samber/lo set operation is applied to []*HAProxyEndpointData")
 	}
+}
+
+// c14DelayedUnmanage: an unmanage that is carried out after the stale-version
+// delay re-validates its targets when it fires: an expression (or the
+// manage-all flag) that a later reload registered again must survive. Decided
+// structurally: inside the goroutine, after the Sleep, the unmanage call is
+// conditioned on registrationCount(x) (read then) == the count captured when the
+// unmanage was scheduled; and every successful ManageHAProxyEndpoints bumps the
+// counts of what it registered.
+func c14DelayedUnmanage(w *World, r *Report) {
+	isCount := func(v ssa.Value) bool { return isCallTo0(v, "config.registrationCount") }
+	for _, site := range []struct{ fn, call, key string }{
+		{"ScheduleUnmanageHAProxyEndpoints", "config.unmanageHAProxyEndpointsVoided", "endpoints"},
+		{"scheduleUnmanageHAProxyGlobal", "config.unmanageGlobalVoided", "manage-all"},
+	} {
+		f := w.Fn(pkgConfig, site.fn)
+		if f == nil {
+			r.Undec("R5", "delayed-unmanage/"+site.key, token.NoPos, "%s not found", site.fn)
+			continue
+		}
+		ok := false
+		n := 0
+		for _, g := range Anons(f) {
+			if g == f {
+				continue
+			}
+			sl := CallsIn(g, false, "clock.Clock).Sleep")
+			for _, c := range CallsIn(g, false, site.call) {
+				n++
+				if len(sl) != 1 || !domInstr(sl[0], c) {
+					continue
+				}
+				// condition on the unmanage itself (manage-all) or on the append that builds its argument (endpoints)
+				guardedBlocks := []*ssa.BasicBlock{c.Block()}
+				if len(c.Common().Args) > 0 {
+					Instrs(g, func(in ssa.Instruction) {
+						if a, isC := in.(*ssa.Call); isC {
+							if b, isB := a.Call.Value.(*ssa.Builtin); isB && b.Name() == "append" && Derives(c.Common().Args[0], func(x ssa.Value) bool { return x == ssa.Value(a) }) {
+								guardedBlocks = append(guardedBlocks, a.Block())
+							}
+						}
+					})
+					// the raw captured list must not be what is unmanaged
+					if fv, isFV := peel(c.Common().Args[0]).(*ssa.FreeVar); isFV {
+						_ = fv
+						continue
+					}
+					if u, isU := peel(c.Common().Args[0]).(*ssa.UnOp); isU {
+						if _, isFV := u.X.(*ssa.FreeVar); isFV {
+							continue
+						}
+					}
+				}
+				for _, b := range guardedBlocks {
+					for _, rel := range Rels(b) {
+						fresh := func(v ssa.Value) bool {
+							cc, isC := peel(v).(*ssa.Call)
+							return isC && isCount(v) && domInstr(sl[0], cc)
+						}
+						captured := func(v ssa.Value) bool {
+							return Derives(v, func(x ssa.Value) bool { _, isFV := x.(*ssa.FreeVar); return isFV }) && !fresh(v)
+						}
+						if rel.Op == "==" && ((fresh(rel.L) && captured(rel.R)) || (fresh(rel.R) && captured(rel.L))) {
+							ok = true
+						}
+					}
+				}
+			}
+		}
+		if n == 0 {
+			r.Undec("R5", "delayed-unmanage/"+site.key, f.Pos(), "no delayed %s call found", site.call)
+			continue
+		}
+		if ok {
+			r.Hold("R5", "delayed-unmanage-revalidated/"+site.key, f.Pos(), 1, "after the delay, %s is removed only if its registration count still equals the one captured when the removal was scheduled", site.key)
+		} else {
+			r.Fail("R5", "delayed-unmanage-revalidated/"+site.key, f.Pos(), "the goroutine started by %s removes %s after the delay without checking whether a later reload registered it again: reload without X, reload with X 10 s later, and 30 s after the first reload X is deleted from the proxy although it is configured", site.fn, site.key)
+		}
+	}
+	// registrations are recorded
+	if m := w.Fn(pkgConfig, "ManageHAProxyEndpoints"); m != nil {
+		nr := CallsIn(m, false, "config.noteRegistered")
+		up := CallsIn(m, false, "config.updateHAProxyEndpoints")
+		ok := len(nr) == 1 && len(up) == 1 && Path(nr[0].Common().Args[0]) == Path(up[0].Common().Args[0])
+		if ok {
+			op, _ := FindRel(Rels(nr[0].Block()), func(v ssa.Value) bool { return v == up[0].Value() }, isNilConst)
+			ok = op == "=="
+		}
+		r.Check(ok, "R5", "delayed-unmanage/registrations-recorded", m.Pos(), "ManageHAProxyEndpoints records what it registered (noteRegistered on the success edge of updateHAProxyEndpoints)")
+	}
+	if nrf := w.Fn(pkgConfig, "noteRegistered"); nrf != nil {
+		n := 0
+		okInc := true
+		Instrs(nrf, func(in ssa.Instruction) {
+			mu, isMU := in.(*ssa.MapUpdate)
+			if !isMU || !strings.HasSuffix(Path(mu.Map), "global:registrations") {
+				return
+			}
+			n++
+			b, isB := peel(mu.Value).(*ssa.BinOp)
+			if !isB || b.Op != token.ADD || Path(b.Y) != "1" {
+				okInc = false
+			}
+		})
+		r.Check(n == 2 && okInc, "R5", "delayed-unmanage/registration-counts-increase", nrf.Pos(), "noteRegistered increments the count of the manage-all flag or of every registered expression")
+	}
+}
+
+// c14NormalisationAgreement: what the engine's URL tree tolerates or
+// generalises when it matches, the registered expression has to tolerate or
+// generalise too. Three agreements are evaluated from the code:
+//   - the tree trims leading/trailing "." and "/" before matching (trimURL), so
+//     a request URL with a trailing slash still matches its pattern; the
+//     expression of a non-wildcard pattern ends with a terminator constant;
+//   - the tree treats `{x}` as a parameter in host labels as well as in path
+//     segments; the registration only rewrites `/{x}`;
+//   - the tree treats a final `*` as a wildcard also when it is a host label; the
+//     registration only rewrites a final `/*`.
+func c14NormalisationAgreement(w *World, r *Report) {
+	hf := w.Fn(pkgConfig, "HaproxyEndpointFormat")
+	tu := w.Fn(pkgURLTree, "trimURL")
+	ins := w.Fn(pkgURLTree, "URLTree.insertWithConvergenceIndication")
+	if hf == nil || tu == nil || ins == nil {
+		r.Undec("R3", "normalisation-agreement", token.NoPos, "HaproxyEndpointFormat / trimURL / insert not found")
+		return
+	}
+	// engine side: the trim cut-set
+	cut := ""
+	for _, c := range CallsIn(tu, false, "strings.Trim", "strings.TrimRight", "strings.TrimSuffix") {
+		if s, ok := constString(c.Common().Args[1]); ok {
+			cut += s
+		}
+	}
+	// registration side: terminator appended to non-wildcard patterns, and any trimming of its own
+	term := ""
+	Instrs(hf, func(in ssa.Instruction) {
+		if b, ok := in.(*ssa.BinOp); ok && b.Op == token.ADD {
+			if s, isS := constString(b.Y); isS && strings.HasSuffix(s, "$") {
+				term = s
+			}
+		}
+	})
+	ownTrim := false
+	for _, c := range CallsIn(hf, false, "strings.Trim", "strings.TrimRight", "strings.TrimSuffix") {
+		if s, ok := constString(c.Common().Args[1]); ok && (s == "/" || s == "./" || s == "/.") {
+			ownTrim = true
+		}
+	}
+	tolerant := term != "" && term != "$" && regexpAccepts(term, "/") && regexpAccepts(term, "")
+	switch {
+	case !strings.Contains(cut, "/"):
+		r.Hold("R3", "trailing-slash/engine-does-not-trim", tu.Pos(), 1, "the URL tree does not trim '/' (cut-set %q)", cut)
+	case tolerant && ownTrim:
+		r.Hold("R3", "trailing-slash/expression-tolerates-it", hf.Pos(), 1, "non-wildcard expressions end with %q and the configured URL is trimmed like the tree does", term)
+	default:
+		r.Fail("R3", "trailing-slash/engine-trims-what-the-expression-requires-absent", hf.Pos(), "the URL tree trims %q from both ends before matching (request api.example.com/orders/ matches pattern api.example.com/orders), but the registered expression of a non-wildcard pattern ends with %q (own trimming of the configured URL: %v): GET api.example.com/orders/ is acted on by the engine's tree and is not intercepted by the proxy", cut, term, ownTrim)
+	}
+	// parameters and wildcard in host labels
+	hostParam, hostWild := true, true
+	Instrs(ins, func(in ssa.Instruction) {
+		c, ok := in.(*ssa.Call)
+		if ok && isCallTo(c, "urltree.TryExtractPathParameter") {
+			for _, cd := range expandConds(CondsOf(c.Block())) {
+				if strings.HasSuffix(Path(cd.V), ".IsPartOfHost") && !cd.Pol {
+					hostParam = false
+				}
+			}
+		}
+	})
+	for _, b := range ins.Blocks {
+		for _, rel := range Rels(b) {
+			if rel.Op == "==" && (strings.Contains(Path(rel.R), "wildcard") || Path(rel.R) == `"*"`) {
+				for _, cd := range expandConds(CondsOf(b)) {
+					if strings.HasSuffix(Path(cd.V), ".IsPartOfHost") && !cd.Pol {
+						hostWild = false
+					}
+				}
+			}
+		}
+	}
+	pat := ""
+	if init := w.SSAPkg[pkgConfig].Func("init"); init != nil {
+		Instrs(init, func(in ssa.Instruction) {
+			if st, ok := in.(*ssa.Store); ok && strings.HasSuffix(Path(st.Addr), "global:regexToFindPathParameters") {
+				if c, ok := peel(st.Val).(*ssa.Call); ok && isCallTo(c, "regexp.MustCompile") {
+					pat, _ = constString(c.Call.Args[0])
+				}
+			}
+		})
+	}
+	if hostParam && strings.HasPrefix(pat, "/") {
+		r.Fail("R3", "host-parameter-not-translated", hf.Pos(), "the URL tree accepts a `{x}` parameter in host labels as well (pattern {sub}.example.com/orders matches eu.example.com/orders), but the registration rewrites only %q - a parameter preceded by '/': the expression for that pattern is GET:::{sub}\\.example\\.com/orders$ and never matches", pat)
+	} else {
+		r.Hold("R3", "host-parameter-translated-or-not-accepted", hf.Pos(), 1, "host-label parameters: tree accepts=%v, registration pattern %q", hostParam, pat)
+	}
+	wl := ""
+	Instrs(hf, func(in ssa.Instruction) {
+		if c, ok := in.(*ssa.Call); ok && isCallTo(c, "strings.HasSuffix") {
+			if s, isS := constString(c.Call.Args[1]); isS && strings.Contains(s, "*") {
+				wl = s
+			}
+		}
+	})
+	if hostWild && strings.HasPrefix(wl, "/") {
+		r.Fail("R3", "host-wildcard-not-translated", hf.Pos(), "the URL tree treats a final `*` label as a wildcard in the host too (pattern api.example.* matches api.example.org/orders), but the registration rewrites only a final %q: the expression for that pattern is GET:::api\\.example\\.*$ and does not match", wl)
+	} else {
+		r.Hold("R3", "host-wildcard-translated-or-not-accepted", hf.Pos(), 1, "host-label wildcard: tree accepts=%v, registration suffix %q", hostWild, wl)
+	}
+}
+
+// regexpAccepts: does the (suffix) pattern match exactly s?
+func regexpAccepts(pat, s string) bool {
+	re, err := regexp.Compile("^(?:" + strings.TrimSuffix(pat, "$") + ")$")
+	if err != nil {
+		return false
+	}
+	return re.MatchString(s)
 }
